@@ -77,6 +77,17 @@ def store_mc(ck, tier):
         ck.add_mc(res, must_cover=STORE_ACTIONS + ["Fail"])
 
 
+def substid_mc(ck):
+    """design level: substitution ids as apply-cache keys (SubstId.tla); the split allocation and the reuse of
+    dropped ids must be rejected"""
+    res = vlib.model_check("SubstId", "MC_SubstId", workers=2, xmx="2g", timeout=300)
+    ck.add_mc(res, must_cover=["AllocAtomic", "DoApply", "DoDrop", "Gc"])
+    for cfg, inv in [("MC_SubstId_split", "UniqueIds"), ("MC_SubstId_reuse", "ResultsRight")]:
+        neg = vlib.model_check("SubstId", cfg, workers=2, xmx="2g", timeout=300, coverage=False)
+        if neg["ok"] or inv not in (neg["violated"] or ""):
+            ck.tool_errors.append("vacuity: %s does not violate %s" % (cfg, inv))
+
+
 # ---------------------------------------------------------------------------
 
 def c01(ck, tier, seed):
@@ -126,6 +137,7 @@ def c04(ck, tier, seed):
     # alternately"): ids of simultaneously live objects are distinct (substid.unique), results are right (sem:subst)
     plan += [("conc", {"kind": k, "seed": seed * 3 + i, "tier": tier}) for i, k in enumerate(["bdd", "bcdd"])]
     _bool_suite(ck, ["C04"], plan)
+    substid_mc(ck)
 
 
 def c05(ck, tier, seed):
